@@ -123,6 +123,27 @@ class _Subst(ast.NodeTransformer):
         return n
 
 
+def _ladder(body: list[ast.stmt]) -> list[ast.stmt] | None:
+    """straight-line statements followed by `if c: return a` guards and a final `return z` -> the same with one
+    `return a if c else (... z)`"""
+    i = 0
+    while i < len(body) and not isinstance(body[i], (ast.If, ast.Return)):
+        i += 1
+    lead, rest = body[:i], body[i:]
+    if len(rest) < 2 or not isinstance(rest[-1], ast.Return) or rest[-1].value is None:
+        return None
+    expr: ast.expr = rest[-1].value
+    for st in reversed(rest[:-1]):
+        if isinstance(st, ast.If) and len(st.body) == 1 and isinstance(st.body[0], ast.Return) and st.body[0].value is not None and not st.orelse:
+            expr = ast.copy_location(ast.IfExp(test=st.test, body=st.body[0].value, orelse=expr), st)
+        elif isinstance(st, ast.If) and len(st.body) == 1 and isinstance(st.body[0], ast.Return) and st.body[0].value is not None and len(st.orelse) == 1 and isinstance(st.orelse[0], ast.Return) and st is rest[-2] and False:
+            return None
+        else:
+            return None
+    ret = ast.copy_location(ast.Return(value=expr), rest[-1])
+    return lead + [ret]
+
+
 def _dotted_chain(v: ast.AST) -> bool:
     while isinstance(v, ast.Attribute):
         v = v.value
@@ -241,7 +262,7 @@ class Inliner:
         if len(cands) != 1:
             return None
         u = self.unknown[cands[0]]
-        if u.module is not fi.module or u is fi:
+        if u is fi:
             return None
         receiver = call.func.value if isinstance(call.func, ast.Attribute) else None
         return u, receiver
@@ -275,7 +296,12 @@ class Inliner:
             # locals of the helper that collide with unrelated names of the caller get a suffix
             arg_names = {n.id for v in list(mapping.values()) + [p.value for p in pre] for n in ast.walk(v) if isinstance(n, ast.Name)}
             rename = {s: s + '__' + un.name.strip('_') for s in stored - params if s in used and s not in arg_names and s not in same}
-            body = [_Subst(mapping, rename).visit(copy.deepcopy(st)) for st in body]
+            body = [copy.deepcopy(st) for st in body]
+            if u.module is not fi.module:
+                for st in body:
+                    for x in ast.walk(st):
+                        x._orig_mod = u.module.rel  # type: ignore[attr-defined]
+            body = [_Subst(mapping, rename).visit(st) for st in body]
             return body, pre
 
         def splice(stmts: list[ast.stmt]) -> list[ast.stmt]:
@@ -401,6 +427,10 @@ class Inliner:
                 if hb is None:
                     return n
                 body, pre = hb
+                # `if c: return a` ... `return z`  ->  a if c else (... z)
+                lad = _ladder(body)
+                if lad is not None:
+                    body = lad
                 if not body or not isinstance(body[-1], ast.Return) or body[-1].value is None:
                     return n
                 lead = pre + body[:-1]
@@ -411,7 +441,10 @@ class Inliner:
                     hoist.extend(lead)
                 hit = True
                 inl.inlined.append('%s -> %s (expression)' % (t[0].qualname, fi.qualname))
-                return body[-1].value
+                wrap = ast.Expr(value=body[-1].value)
+                ast.copy_location(wrap, body[-1])
+                _relocate([wrap], n)
+                return wrap.value
 
             def visit_Await(self, n: ast.Await) -> ast.AST:
                 self.generic_visit(n)
@@ -432,7 +465,7 @@ class Inliner:
         return st
 
 
-def _relocate(stmts: list[ast.stmt], site: ast.AST) -> None:
+def _relocate(stmts: list[ast.stmt], site: ast.AST, origin: str | None = None) -> None:
     """spliced statements sit, for every ordering purpose, at the line of the call they replace (fractions keep their
     own order); the position in the source file, which the mypy side tables are keyed by, moves to _orig_pos"""
     base = site.lineno  # type: ignore[attr-defined]
@@ -443,6 +476,8 @@ def _relocate(stmts: list[ast.stmt], site: ast.AST) -> None:
             if hasattr(n, 'lineno'):
                 if getattr(n, '_orig_pos', None) is None:
                     n._orig_pos = (n.lineno, n.col_offset, getattr(n, 'end_lineno', None), getattr(n, 'end_col_offset', None))  # type: ignore[attr-defined]
+                    if getattr(n, '_orig_mod', None) is None and origin is not None and not getattr(n, '_from_caller', False):
+                        n._orig_mod = origin  # type: ignore[attr-defined]
                 k += 1
                 n.lineno = base + min(k, 9999) * 1e-5  # type: ignore[attr-defined]
                 n.end_lineno = max(end, n.lineno)  # type: ignore[attr-defined]
